@@ -22,9 +22,9 @@ def generate(seed, tier):
     rng = stream(seed, "c02")
     big = tier == "thorough" and rng.random() < 0.15
     spec = gen_instance(rng, huge=0.03, sparse_ids=0.03, large=0.008, max_jobs=6 if big else 4, max_machines=5 if big else 4, max_ops=6 if big else 4)
-    names, style = gen_filter(rng, None, p_none=0.5)
+    names, style = gen_filter(rng, None, p_none=0.5, user=0.15)
     faulty = rng.random() < 0.5
-    ops = gen_dispatch_ops(rng, n_ops(spec), p_query=0.08, p_invalid=0.1 if faulty else 0.0,
+    ops = gen_dispatch_ops(rng, n_ops(spec), p_fork=0.03 if rng.random() < 0.3 else 0.0, p_query=0.08, p_invalid=0.1 if faulty else 0.0,
                            p_reset=0.05 if faulty else 0.0, episodes=2 if rng.random() < 0.2 else 1)
     return {"prop": PROP, "cfg": {"instance": spec, "filter": names, "filter_style": style,
                                   "observers": [{"t": "history"}], "gif_replay": rng.random() < 0.35}, "ops": ops}
@@ -73,6 +73,7 @@ def replay_oracles(w, same_too=True):
     ctx = w.ctx
     hist_obs = w.observers[0][1]
     want = sched_of(w.disp)
+    accepted_before = list(w.accepted)
     recorded = [(so.operation, so.machine_id) for so in hist_obs.history]
     if [(o.operation_id, mm) for o, mm in recorded] != w.accepted:
         # the recorded history is the durable log the replay promise is about
@@ -118,7 +119,11 @@ def replay_oracles(w, same_too=True):
         ctx.probe("replay_gif_path")
     # (b) the same dispatcher after reset()
     if same_too:
+        held = hist_obs.history  # the user keeps the list they were given, not a copy
         w.do_reset()
+        recorded = [(so.operation, so.machine_id) for so in held]
+        if [(o.operation_id, mm) for o, mm in recorded] != [(o.operation_id, mm) for o, mm in [(w.ops_by_id[i], mm) for i, mm in accepted_before]]:
+            ctx.fail("recorded_history_survives_reset", f"the history list obtained before reset() now holds {[(o.operation_id, mm) for o, mm in recorded]}, it recorded {accepted_before}")
         try:
             for o, mm in recorded:
                 w.disp.dispatch(o, mm)
